@@ -39,6 +39,15 @@ def gen_base(rng, tier, index):
         return {"kind": "fmap", "pool": "fmap", "workers": 2, "no_sweep": True, "limit_factor": 3,
                 "calls": [{"ordered": True, "n": 6, "chunk": 2, "form": "list", "pause_after": pause},
                           {"ordered": True, "n": 9, "chunk": 1, "form": "gen"}]}
+    if index in (13, 14) or (tier == "thorough" and index % 40 in (13, 14)):
+        # items that take longer than any plausible internal polling interval, at the tail of the input: one worker is
+        # still computing while the others have already taken their stop order and exited
+        kind = "fmap" if index % 40 == 13 else "mulpmap"
+        t = 1.6 if tier == "quick" else rng.choice([1.6, 3.2])
+        return {"kind": kind, "pool": kind, "workers": 2, "no_sweep": True, "limit_factor": 2,
+                "calls": [{"ordered": True, "n": 6, "chunk": 1, "form": "list",
+                           "durations": {"mode": "slow_chunk", "t": t, "chunk": 5, "phase": 0, "nchunks": 6}},
+                          {"ordered": True, "n": 3, "chunk": 1, "form": "gen", "durations": {"mode": "all", "t": t}}]}
     kind = "mulpmap" if index % 3 == 2 else "fmap"
     workers = rng.choice([1, 2, 2, 3, 4, 5])
     ncalls = rng.randint(1, 4) if kind == "fmap" else rng.randint(1, 3)
@@ -54,7 +63,7 @@ def gen_base(rng, tier, index):
             n = rng.randint(1, max(1, workers - 1))
         else:
             n = rng.randint(2, 60 if kind == "fmap" else 40)
-        call = {"ordered": True, "n": n, "chunk": chunk, "form": rng.choice(["list", "list", "gen", "slow", "deque", "intseq"]),
+        call = {"ordered": True, "n": n, "chunk": chunk, "form": rng.choice(["list", "list", "gen", "iter", "slow", "deque", "intseq", "array_like"]), "list_items": rng.random() < 0.25,
                 "salt": rng.randrange(1000)}
         if call["form"] == "slow":
             call["slow"] = {"before": {str(rng.randrange(max(1, n))): 0.03} if n else {}, "stop": rng.choice([0, 0.05])}
